@@ -11,42 +11,57 @@ from vlib.dtcodec import f2bits
 
 META = {
     'level_text': 'Theorems for every float carrier with the laws of Spec.C02.WireLaws, every well-formed datatype tree of any depth '
-                  'and every valid value of it (in the declared value set of Spec.C01, every scaled leaf reproduced by the grid): '
-                  'export_kind (export_value yields strict JSON of the prescribed kind at every position), wire_roundtrip_node '
-                  '(import_value of the exported value is Python-equal to the value), wire_roundtrip_text (the same through any '
-                  'dumps/loads pair with loads(dumps j) = j), wire_roundtrip_client (the same on the datatype rebuilt from the '
-                  'description: clientOf, whose import_value is proved identical), text_roundtrip (from_string accepts to_string, the '
-                  'result has the identical text form and equals the value at every non-float leaf; one-member tuples print as (x,)), '
-                  'client_string_write (for types without float leaf; the full statement is kept as client_string_write_statement). '
-                  'The models of export_value / format_value / to_string / from_string / setParameterFromString are tied to '
-                  'frappy/datatypes.py and frappy/client/__init__.py by a correspondence run on the real classes (json.dumps with the '
-                  'settings of encode_msg_frame, json.loads, get_datatype, CacheItem, a SecopClient whose request() records the line), and '
-                  'the Lean monitors (kindOKB, strictB, pyEq, sameButFloatsB, textEq) judge every output of the implementation.',
+                  '(structs included) and every valid value of it (in the declared value set of Spec.C01, every scaled leaf reproduced '
+                  'by the grid): export_kind (export_value yields strict JSON of the prescribed kind at every position), '
+                  'wire_roundtrip_node (import_value of the exported value is Python-equal to the value), wire_roundtrip_exact (a '
+                  'canonical value comes back as the very same value), wire_roundtrip_text (the same through any dumps/loads pair '
+                  'with loads(dumps j) = j), wire_roundtrip_client (the same on the datatype rebuilt from the description: clientOf, '
+                  'whose import_value and export_value are proved identical), text_roundtrip / text_roundtrip_client (from_string '
+                  'accepts to_string, the result has the identical text form and equals the value at every non-float leaf; all '
+                  'trees: one-member tuples print as (x,), struct members in the order of the value, enum names with outer blanks), '
+                  'client_string_write (for every valid canonical value in the client\'s cache: str(CacheItem) is accepted by '
+                  'from_string, and what setParameterFromString sends is strict JSON of the kind the node\'s type prescribes which '
+                  'the node imports to a value equal to the one the text was read as — also when a re-read float left the limits), '
+                  'client_cache_string_write (the whole path: node export -> updateValue -> cache entry holding exactly v -> '
+                  'str -> setParameterFromString -> node import; under the grid law at the scaled limits, LimitsOnGrid). '
+                  'The models of export_value / format_value / to_string / from_string / CacheItem / updateValue / setParameter / '
+                  'setParameterFromString are tied to frappy/datatypes.py and frappy/client/__init__.py by a correspondence run on '
+                  'the real classes (json.dumps with the settings of encode_msg_frame, json.loads, a SecopClient whose tables are '
+                  'built by the real _init_descriptive_data (get_datatype) and whose request() records the line), and the Lean '
+                  'monitors (kindOKB, strictB, pyEq, sameButFloatsB, textEq) judge every output of the implementation.',
     'level_note': 'Trusted: Lean kernel + axioms propext/Classical.choice/Quot.sound; the laws of WireLaws for binary64 (proved for the '
                   'exact carrier Rat); one law per library leaf (TextLib.Lawful, B64Law, JsonText.loads_dumps), each tested on every '
-                  'leaf drawn; the printing/parsing of brackets and commas (ast.parse) is not modelled — texts are compared as syntax trees.',
+                  'leaf drawn and all satisfied by a concrete library over Rat (Lemmas/TextLibRat.lean); the float format laws speak '
+                  'of the library and float arithmetic only (FloatRange.__call__ / ScaledInteger.__call__ are proved from the model); '
+                  'the printing/parsing of brackets and commas (ast.parse) is not modelled — texts are compared as syntax trees.',
     'trusted': [
-        'binary64 satisfies Spec.C02.WireLaws (x+0.0 compares like x, x*y = y*x, float(i) exists for |i| <= 2^64, order laws); proved '
-        'for Rat, re-tested on the doubles drawn',
+        'binary64 satisfies Spec.C02.WireLaws (x+0.0 compares like x, x*y = y*x, x <= x, -max <= max, float(i) exists for '
+        '|i| <= 2^64, order laws); proved for Rat, re-tested on the doubles drawn',
         'grid law at every scaled leaf (part of Valid: round(x/scale)*scale == x); leaves where it fails (|k|*ulp >= 1/2) are probed by '
-        'the generator and counted as outside the quantifier',
-        "library leaves, one law each, tested on every leaf drawn: fmtstr % float(literal_eval(fmtstr % x)) == fmtstr % x through "
-        "FloatRange.__call__ / ScaledInteger.__call__ (TextLib.Lawful.fmtDouble/fmtScaled); ast.literal_eval(repr(s)) == s for str, "
-        'bytes, int, bool; b64decode(b64encode(b), validate=True) == b (B64Law); json.loads(json.dumps(j)) == j for strict j '
+        'the generator and counted as outside the quantifier; the same law at the snapped limits (LimitsOnGrid, decided per case)',
+        "library leaves, one law each, tested on every leaf drawn: fmtstr % clamp(literal_eval(fmtstr % x) + 0.0) == fmtstr % x for a "
+        "finite x that is not -0.0 (TextLib.Lawful.fmtDouble), for a grid value x of a scaled leaf fmtstr % y == fmtstr % x where y = "
+        "round(literal_eval(fmtstr % x) / scale) * scale, and y is again reproduced by the grid (fmtScaled); the instances where "
+        "this fails ('%.1f' % -0.04 == '-0.0' reads back as 0.0 which prints '0.0'; scaled leaves with a grid finer than the double "
+        "spacing) are decided per case in Lean (fmtLawB) and counted, not judged; ast.literal_eval(repr(s)) == s for str, bytes, "
+        'int, bool; b64decode(b64encode(b), validate=True) == b (B64Law); json.loads(json.dumps(j)) == j for strict j '
         '(JsonText.loads_dumps)',
         'ast.parse as the reader of bracket structure: the observation compares syntax trees, (x) vs (x,) is decided by ast',
-        'FrappyDrive/C02.lean: the tagged-token TextLib instance and the fmt read-back table sent by the harness',
+        'FrappyDrive/C02.lean: the tagged-token TextLib instance and the fmt read-back table sent by the harness (a float text is '
+        'identified with the float it reads back as)',
     ],
     'modelled_not_verified': [
         "CPython '%' formatting, repr(), ast.literal_eval, str.strip, base64, json.dumps/json.loads, float arithmetic",
         'frappy.lib.enum.Enum (dict keyed by names and values)',
         'frappy.properties.HasProperties.exportProperties / get_datatype beyond what values can see (clientOf; the full '
         'description round trip is C03)',
-        'SecopClient queueing/threads: request() is replaced by a recorder that calls the real encode_msg_frame',
+        'SecopClient queueing/threads: request() is replaced by a recorder that calls the real encode_msg_frame; the error '
+        'branch of CacheItem.__str__ (readerror) is modelled but not exercised',
     ],
     'assumptions': ['generalConfig.lazy_number_validation is False (default)',
                     'values are canonical (what validation returns): no -0.0 leaf for the text clauses',
-                    'fmtstr follows the SECoP syntax %.<n>(e|f|g) or is frappy\'s default %g',
+                    'fmtstr follows the SECoP syntax %.<n>(e|f|g) or is frappy\'s default %g, and the format law holds at the float '
+                    'leaves of the value (fails for negative values that print as -0.0 under %.<n>f)',
                     'node-side from_string (which converts with __call__) is offered structs with all members; the client side '
                     '(client = True) takes structs without their optional members'],
 }
@@ -722,6 +737,8 @@ def shrink(ctx, case, clause):
 
 
 def signature(clause, case):
+    if clause.endswith(':neg-zero-text'):
+        return 'C02:' + clause                  # the recorded finding: one signature per clause, whatever the tree
     return 'C02:' + clause + ':' + case['tree']['t']
 
 
@@ -833,7 +850,10 @@ def run(ctx):
             if ans.get('cvalid') is not None:
                 # hypothesis of client_cache_string_write: the cached value lies in the value set of the rebuilt type
                 res.count('client-value-valid-for-rebuilt-type=%s' % ans['cvalid'])
-            if ans['canon'] and not ans['fmtlaw']:
+            if ans['canon'] and ans.get('negzero'):
+                # a float leaf prints as a text that reads back as -0.0: the recorded finding (judged, KNOWN-FINDING)
+                res.count('finding.neg-zero-text(judged)')
+            elif ans['canon'] and not ans['fmtlaw']:
                 # the assumed format law fails at a leaf of this value: a negative value printing as '-0.0' (reads back as
                 # 0.0, prints '0.0'), or a scaled leaf whose text reads back to a neighbouring grid point
                 res.count('precondition.fmt-law-fails(text not judged)')
@@ -847,7 +867,7 @@ def run(ctx):
             if len(res.samples) < 6 and t in ('array', 'tuple', 'struct') and origin == 'gen' and len(json.dumps(c)) < 600:
                 res.samples.append({'case': c, 'impl': {k: impl[k] for k in ('exp', 'text', 'ctext', 'sent')}})
             for lf in libfail:
-                if lf.startswith('fmt law: ') and not ans['fmtlaw']:
+                if lf.startswith('fmt law: ') and not ans['fmtlaw']:    # incl. the neg-zero-text instances
                     res.count('libtest.fmt-law-fails(agrees with the Lean precondition)')
                     continue
                 libfails += 1
@@ -866,7 +886,7 @@ def run(ctx):
                 res.disagreements.append({'case': c, 'model': {k: mo[k] for k in diff}, 'impl': {k: io[k] for k in diff}})
             for clause in ans['judge']:
                 small = c
-                if (clause, t) in seen_unshrunk and shrunk >= 12:
+                if (clause, t) in seen_unshrunk and (shrunk >= 12 or clause.endswith(':neg-zero-text')):
                     continue                       # the same clause on the same root kind was reported (and shrunk) already
                 seen_unshrunk.add((clause, t))
                 if shrunk < 60:
